@@ -792,12 +792,13 @@ class StmtMixin:
 
         def post_iter(s3):
             s3.env[kname] = SV(INT, s3.env[kname].z + 1)
+            s3.env[sname] = get_seq(s3)          # a list is re-read on every iteration: the invariant talks about its current content
 
         # the index is engine-owned: make sure it is havocked with the other loop-assigned names
         fake = ast.Name(id=kname, ctx=ast.Store())
         s._ghost_targets = [fake]
         spec2 = dict(spec)
-        spec2['inv'] = ['0 <= %s' % kname] + ([] if kind == 'list' else ['%s <= len(%s)' % (kname, sname)]) + list(spec.get('inv', []))
+        spec2['inv'] = ['0 <= %s' % kname, '%s <= len(%s)' % (kname, sname)] + list(spec.get('inv', []))
         return self.run_loop(s, st, no, spec2, test=None, pre_body=pre_body, post_iter=post_iter)
 
     def enumeration(self, it, st):
